@@ -3,7 +3,7 @@
 
 usage: cross.py [--seeds C01,C02-r2,...] [--checks C01,...] [--jobs N] [--out seeded/CROSS.json]
 
-For each seeded change: scratch worktree of /repo under /tmp/cross (removed afterwards), patch
+For each seeded change: scratch worktree of /repo under /tmp/cross-<pid> (removed afterwards), patch
 applied, one harness build per profile (VERIF_REPO override), then every requested check at the
 quick tier with evidence/replay directories redirected to scratch. Records exit codes and the
 first VIOLATION / INCONCLUSIVE line. Nothing under /repo or /verif/evidence is touched.
@@ -11,6 +11,7 @@ first VIOLATION / INCONCLUSIVE line. Nothing under /repo or /verif/evidence is t
 import argparse, glob, json, os, re, shutil, subprocess, sys, time
 from concurrent.futures import ThreadPoolExecutor
 VERIF = os.path.dirname(os.path.dirname(os.path.abspath(__file__)))
+SCR = f"/tmp/cross-{os.getpid()}"  # per process: concurrent runs must not remove each other's worktrees
 ALL = [f"C{i:02d}" for i in range(1, 20)]
 
 def sh(cmd, cwd=None, env=None, timeout=3600):
@@ -19,7 +20,7 @@ def sh(cmd, cwd=None, env=None, timeout=3600):
     return p.returncode, p.stdout + p.stderr
 
 def one(seed, checks, threads, kind="seeded"):
-    wt = f"/tmp/cross/{seed}"
+    wt = f"{SCR}/{seed}"
     sh(f"git -C /repo worktree remove --force {wt}"); shutil.rmtree(wt, ignore_errors=True)
     rc, out = sh(f"git -C /repo worktree add --detach {wt} HEAD")
     if rc != 0:
@@ -30,7 +31,7 @@ def one(seed, checks, threads, kind="seeded"):
         if rc != 0:
             return seed, {"error": "patch does not apply: " + out[-300:]}
         tdir = f"{VERIF}/harness/target-mut-cross-{seed}"
-        env = {"VERIF_REPO": wt, "VERIF_TARGET_DIR": tdir, "VERIF_EVIDENCE_DIR": f"/tmp/cross/ev-{seed}", "VERIF_REPLAY_DIR": f"/tmp/cross/rp-{seed}", "VERIF_THREADS": str(threads)}
+        env = {"VERIF_REPO": wt, "VERIF_TARGET_DIR": tdir, "VERIF_EVIDENCE_DIR": f"{SCR}/ev-{seed}", "VERIF_REPLAY_DIR": f"{SCR}/rp-{seed}", "VERIF_THREADS": str(threads)}
         for c in checks:
             t0 = time.time()
             rc, out = sh(f"./check {c} quick", cwd=VERIF, env=env)
@@ -40,7 +41,7 @@ def one(seed, checks, threads, kind="seeded"):
             res[c] = {"exit": rc, "kind": kind.group(1) if kind else "", "inconclusive": inc[:200], "secs": round(time.time() - t0, 1)}
     finally:
         sh(f"git -C /repo worktree remove --force {wt}"); shutil.rmtree(wt, ignore_errors=True)
-        for d in (f"{VERIF}/harness/target-mut-cross-{seed}", f"{VERIF}/harness/target-mut-cross-{seed}-rel", f"{VERIF}/harness/target-mut-cross-{seed}-fuzz", f"/tmp/cross/ev-{seed}", f"/tmp/cross/rp-{seed}"):
+        for d in (f"{VERIF}/harness/target-mut-cross-{seed}", f"{VERIF}/harness/target-mut-cross-{seed}-rel", f"{VERIF}/harness/target-mut-cross-{seed}-fuzz", f"{SCR}/ev-{seed}", f"{SCR}/rp-{seed}"):
             shutil.rmtree(d, ignore_errors=True)
     return seed, res
 
@@ -53,7 +54,7 @@ def main():
     a.out = a.out or os.path.join(VERIF, a.dir, "CROSS.json")
     seeds = a.seeds.split(",") if a.seeds else sorted(os.path.basename(d) for d in glob.glob(f"{VERIF}/{a.dir}/C*") if os.path.exists(os.path.join(d, "patch.diff")))
     checks = a.checks.split(",") if a.checks else ALL
-    os.makedirs("/tmp/cross", exist_ok=True)
+    os.makedirs(SCR, exist_ok=True)
     results = {}
     if os.path.exists(a.out):
         results = json.load(open(a.out))
@@ -65,7 +66,7 @@ def main():
             incs = [c for c, v in res.items() if isinstance(v, dict) and v.get("exit") not in (0, 1)]
             print(f"{seed}: fires {fires} inconclusive {incs}", flush=True)
             json.dump(results, open(a.out, "w"), indent=1, sort_keys=True)
-    shutil.rmtree("/tmp/cross", ignore_errors=True)
+    shutil.rmtree(SCR, ignore_errors=True)
 
 if __name__ == "__main__":
     main()
